@@ -211,6 +211,15 @@ MUTANTS = [
      "        if effect_timing.is_from_start():\n            makespan = max(makespan, effect_timing.delay)", "        makespan = max(makespan, effect_timing.delay)", "_extract_makespan"),
     ("C05", "unified_planning/engines/plan_validator.py",
      "        if goal_interval.upper.is_from_end():\n            interval_bound = goal_interval.lower", "        if goal_interval.upper.is_from_start():\n            interval_bound = goal_interval.lower", "_extract_makespan"),
+    ("C06", "unified_planning/engines/compilers/utils.py",
+     "            replaced_action,\n            action_instance.actual_parameters,", "            replaced_action,\n            tuple(),", "replace_action"),
+    ("C06", "unified_planning/engines/compilers/utils.py",
+     "    lifted_action, parameters = map[action_instance.action]\n    return ActionInstance(lifted_action, tuple(parameters))",
+     "    lifted_action, parameters = map[action_instance.action]\n    return ActionInstance(action_instance.action, tuple(parameters))", "lift_action_instance"),
+    ("C07", "unified_planning/engines/compilers/utils.py",
+     "    if ps.is_bool_constant():\n        if not ps.bool_constant_value():\n            return (False, [])", "    if ps.is_bool_constant():\n        if ps.bool_constant_value():\n            return (False, [])", "check_and_simplify_preconditions"),
+    ("C06", "unified_planning/engines/compilers/utils.py",
+     "        if ps.is_and():\n            nap.extend(ps.args)", "        if ps.is_and():\n            nap.extend(ps.args[1:])", "check_and_simplify_preconditions"),
     ("C11", "unified_planning/model/walkers/simplifier.py",
      "            return self.manager.Bool(not l)", "            return self.manager.Bool(l)", "walk_not"),
 ]
